@@ -13,7 +13,7 @@
    amounts of the writes times their slots inside [a,b) is [seg_read_exact] of Proofs/SegRead.v (builder
    "seg"); C01_exact uses it directly, C01_exact_from keeps the reduction with that fact as a premise. *)
 From Pyro Require Import Model.Base Model.Tree Model.Segment Model.Timeline Model.Storage
-  Proofs.TreeProofs Proofs.SegStruct Proofs.StorageProofs.
+  Proofs.TreeProofs Proofs.SegStruct Proofs.StorageProofs Proofs.StorageCounters.
 Local Open Scope Z_scope.
 
 Theorem C01_get_readonly : forall rt sel f u st, fst (st_step rt st (OpGet sel f u)) = st.
@@ -127,6 +127,31 @@ Theorem C01_average_partial : forall p pis sel from until, Forall good_put pis -
 Proof. exact get_sum_avg. Qed.
 Print Assumptions C01_average_partial.
 
+(* I_writes at the level of a read (from SegCount.seg_counters_exact and SegCanon.cinv): for a history of
+   single-slot writes, the write counters of the buckets a read of [a,b) assembles add up to the number of
+   writes that fall into [a,b) *)
+Theorem C01_cover_writes : forall K ws a b, Forall (valid_write K) ws -> single_slot ws -> a < b ->
+  sumN (map gc_writes (s_get a b (fst (run_writes ws)))) = writes_in a b ws.
+Proof. exact cover_writes_holds. Qed.
+Print Assumptions C01_cover_writes.
+
+(* C01_average_single_slot: when every upload is a single slot (what the agent sends), an 'average' query
+   returns, per stack, floor(sum / number of contributing uploads), U = uploads into matching series whose
+   slot lies in the rounded range (U = 0 only when the sum is an empty sum) *)
+Theorem C01_average_single_slot : forall K pis sel from until p,
+  Forall (single_put K) pis -> key_consistent pis ->
+  let ab := s_normalize_unix (from, until) in
+  fst ab < snd ab ->
+  has_average (st_matching sel (st_after pis)) = true ->
+  let S := sumZ (map (contrib p (fst ab) (snd ab)) (filter (fun pi => sel_matches sel (pi_sid pi)) pis)) in
+  let U := Z.of_nat (length (filter (fun pi => sel_matches sel (pi_sid pi) && pi_in (fst ab) (snd ab) pi) pis)) in
+  match st_get sel from until (st_after pis) with
+  | Some out => Z.of_N (t_self_at p (go_tree out)) = if 0 <? U then S / U else S
+  | None => S = 0
+  end.
+Proof. exact average_single_slot_closed. Qed.
+Print Assumptions C01_average_single_slot.
+
 (* ---- non-vacuity: two series of one application, three uploads (spans 1, 2 and 3 slots, one straddling
    a 100 s boundary), a query by application over part of the history --------------------------------- *)
 Definition ex_s1 : sid := {| sid_key := [97;123;120;61;49;125]%N; sid_app := [97]%N; sid_tags := [([120], [49])]%N |}.
@@ -169,3 +194,19 @@ Example C01_average_nonvacuous :
   | _, _ => False
   end.
 Proof. split; [apply good_putb_ok; vm_compute; reflexivity|]. vm_compute. split; reflexivity. Qed.
+
+Definition avg_put (f : Z) (v : N) : put_input :=
+  {| pi_sid := d12_sid; pi_from := f; pi_until := f + 10; pi_tree := t_insert [97;59;98]%N v t_empty;
+     pi_meta := {| m_spy := []; m_rate := 100%N; m_units := []; m_agg := average_bytes |} |}.
+
+Example C01_average_single_slot_nonvacuous :
+  let pis := [avg_put 1600000000 8%N; avg_put 1600000010 3%N; avg_put 1600000010 4%N] in
+  Forall (single_put 63) pis /\ has_average (st_matching d12_sid (st_after pis)) = true /\
+  match st_get d12_sid 1600000000 1600000020 (st_after pis) with
+  | Some out => t_self_at [[97]%N; [98]%N] (go_tree out) = 5%N       (* (8 + 3 + 4) / 3 *)
+  | None => False
+  end.
+Proof.
+  cbv zeta. split; [|split; vm_compute; reflexivity].
+  repeat (apply Forall_cons; [split; [apply exact_putb_ok; vm_compute; reflexivity|vm_compute; reflexivity]|]). apply Forall_nil.
+Qed.
